@@ -157,6 +157,7 @@ def run(chk):
         r5.check(len(pairs) == len(want), 'count', g.loc, 'cpu_feature_adjust has %d conditional clears, expected %d' % (len(pairs), len(want)))
     from . import clones
     clones.rule_clones(chk, 'N1', floor=100)
+    clones.rule_const_width(chk, 'N2', floor=100)
     # R3b shared with C20
     from . import c20
     c20.run_f1(chk, P)
